@@ -162,13 +162,17 @@ def _loop_part(g, case, res, add, residual, D, u, beta, gamma):
         pf.solvePDE(ref, eq)
         return np.asarray(ref.value, dtype=float).copy(), kap
 
-    for akind in ("scalar", "ndarray", "cellvar"):
+    for akind in ("default", "scalar", "ndarray", "cellvar"):
         acts = list(itertools.product(ALPHA_ACTIONS, repeat=2)) if akind == "cellvar" else [("keep", "keep"), ("replace", "edit")]
+        if akind == "default":
+            acts = [("keep", "keep")]
         for (act1, act2) in acts:
             for dpat in DT_PATTERNS:
                 for reuse_list in (False, True):
                     phi = pf.CellVariable(g.mesh, old0.copy(), make_bc(g, setup))
-                    if akind == "scalar":
+                    if akind == "default":          # transientTerm(phi, dt): the documented default alpha = 1
+                        alpha = 1.0
+                    elif akind == "scalar":
                         alpha = 1.5
                     elif akind == "ndarray":
                         alpha = a0.copy()
@@ -181,7 +185,7 @@ def _loop_part(g, case, res, add, residual, D, u, beta, gamma):
                     for step in range(3):
                         act = (None, act1, act2)[step]
                         if act in ("edit", "edit_ppm", "edit_apply", "assign", "advance", "replace"):
-                            if akind == "scalar":
+                            if akind in ("scalar", "default"):
                                 alpha = alpha * 1.5
                             elif akind == "ndarray":
                                 if act == "replace":
@@ -203,8 +207,8 @@ def _loop_part(g, case, res, add, residual, D, u, beta, gamma):
                                 alpha = pf.CellVariable(g.mesh, a_alt.copy())
                         dt = dt0 / dpat[step]
                         oldv = np.asarray(phi.value, dtype=float).copy()
-                        avals = alpha if akind == "scalar" else (np.array(alpha) if akind == "ndarray" else np.asarray(alpha.value, dtype=float).copy())
-                        tt = pf.transientTerm(phi, dt, alpha)
+                        avals = alpha if akind in ("scalar", "default") else (np.array(alpha) if akind == "ndarray" else np.asarray(alpha.value, dtype=float).copy())
+                        tt = pf.transientTerm(phi, dt) if akind == "default" else pf.transientTerm(phi, dt, alpha)
                         if reuse_list:
                             if eqlist is None:
                                 eqlist = [tt] + Ms + vs
